@@ -39,6 +39,9 @@ def prove_paths(ctx, paths, goal, pre=(), timeout=None, twin=None):
     for pc, status, res in paths:
         if status != 'ok': return ('event', status, res, pc)
         ret, outs = res
+        # vacuity guard: preconditions + path condition must be satisfiable
+        vq = smt.prove(lambda tr: z3.BoolVal(False), assumptions=list(pre) + list(pc), timeout=min(tmo, 30))
+        if vq.status == 'unsat': return ('unknown', 'vacuous: assumptions of this path are unsatisfiable')
         # probe the labels once (with a throw-away translator) to enumerate them
         labels = [l for l, _ in goal(smt.T(), ret, outs)]
         for li, lab in enumerate(labels):
